@@ -217,7 +217,7 @@ func (w *rsWorld) runWord(b Beh, seed int64) ([]J, error) {
 		if err := json.Unmarshal(raw, &s); err != nil {
 			return nil, err
 		}
-		o := J{"ev": "step", "case": b.ID, "i": i, "a": s.A, "c": s.C, "k": s.K, "ok": true, "n": 0, "why": ""}
+		o := J{"ev": "step", "case": b.ID, "i": i, "a": s.A, "c": s.C, "k": s.K, "ok": true, "n": 0, "why": "", "starved": false}
 		if s.A == "Event" {
 			// the application changes the value all controllers are subscribed to; it does not wait for slow receivers
 			apps.Add(1)
@@ -274,6 +274,9 @@ func (w *rsWorld) runWord(b Beh, seed int64) ([]J, error) {
 			switch {
 			case err != nil:
 				o["ok"], o["why"] = false, "receive: "+err.Error()
+				if ne, isNet := err.(net.Error); isNet && ne.Timeout() && m == nil {
+					o["starved"] = true // nothing (more) arrived in 20 s: the response waits for somebody else
+				}
 				c.Close()
 				delete(conns, s.C)
 			case m.Status != 200:
